@@ -35,6 +35,18 @@
  *   the verdict is OPEN, either answer is accepted, only the unconditional
  *   clauses (memory safety, termination, ledger, no tree with an error status)
  *   are demanded.
+ *   The same holds for a token that starts with a letter and goes on with a
+ *   character that neither the statement nor the documentation nor a unit test
+ *   classifies (here: '#', as in a# or x#F -- scheme reads these as symbols):
+ *   OPEN.  '{' and '}' inside such a token are pinned as "not a symbol" by
+ *   t_sx_parse_token_error_symbol ("foo{}") and stay an error.
+ *
+ * "No allocation leaked": a block that is still live when the parser returns
+ * an error (or after sx_destroy of the returned tree) is a leak only if the
+ * same happens again when the same input is presented a second time; a block
+ * the parser allocates once and keeps for later calls (reachable scratch
+ * memory) is not.  So a non-empty ledger triggers a second presentation with a
+ * fresh ledger and the clause is reported only if that one is non-empty too.
  */
 #include "mc.h"
 
@@ -329,9 +341,16 @@ rd_expr(struct reader *r, int depth)
         return x;
     }
     if (ref_letter(t[0])) {
-        for (size_t k = 1; k < len; ++k)
-            if (!(ref_letter(t[k]) || ref_dec(t[k]) || t[k] == '-'))
-                return rd_fail(r, V_ERR, tokerr);
+        bool unclassified = false;
+        for (size_t k = 1; k < len; ++k) {
+            if (ref_letter(t[k]) || ref_dec(t[k]) || t[k] == '-')
+                continue;
+            if (t[k] == '{' || t[k] == '}')
+                return rd_fail(r, V_ERR, tokerr); /* pinned by the unit test */
+            unclassified = true;
+        }
+        if (unclassified)
+            return rd_fail(r, V_OPEN, E_NONE);
         const int x = r_new(R_SYM);
         if (len >= sizeof R[x].sym)
             mc_broken("generated a symbol longer than the reference arena allows");
@@ -378,7 +397,8 @@ ref_read(const char *s, size_t n, struct expect *e)
         else if (R[root].kind == R_SYM) e->outcome = "ok-symbol";
         else e->outcome = "ok-decimal";
     } else if (r.verdict == V_OPEN) {
-        e->outcome = "open-dash-token";
+        /* the token that left it open starts at r.i */
+        e->outcome = (r.i < n && s[r.i] == '-') ? "open-dash-token" : "open-symbol-character";
     } else {
         switch (r.err) {
         case E_BLANK: e->outcome = "err-blank"; break;
@@ -512,6 +532,25 @@ would_run_at(int k)
 static bool is_success(enum sx_status s) { return s == SXS_SUCCESS; }
 static bool is_error(enum sx_status s) { return s != SXS_SUCCESS && s != SXS_FOUND_LIST; }
 
+/* The ledger was not empty after the first presentation: present the same
+ * octets once more with a fresh ledger and return how many blocks allocated by
+ * *that* call are still live once a returned tree (if any) has been destroyed.
+ * 0 = what stayed behind the first time was a one-time allocation the parser
+ * keeps, not a leak.  Same sequence in a sweep and in a replay of the case. */
+static int
+live_on_second_presentation(int via, const char *buf, size_t n)
+{
+    ledger_start();
+    struct sx_parse_result again = via ? sx_parse_stringn(buf, n) : sx_parse_string(buf);
+    if (again.node != NULL)
+        sx_destroy(&again.node);
+    ledger.on = false;
+    mc_trans(1);
+    mc_log("second presentation with a fresh ledger: status=%d allocations made=%d live=%d",
+           (int)again.status, ledger.made, ledger.live);
+    return ledger.live;
+}
+
 /* Runs the two cases of one input.  `what` is the family part of the
  * descriptor, e is what the statement demands for these octets. */
 static void
@@ -551,15 +590,22 @@ present(const char *what, const char *in, size_t n, const struct expect *e)
         /* unconditional: an error status comes without a tree and without live allocations */
         if (!is_success(res.status) && res.node != NULL)
             mc_fail("C20/no-tree-on-error", "status %d with a non-null tree", (int)res.status);
-        if (!is_success(res.status) && res.node == NULL && live != 0)
-            mc_fail("C20/no-leak-on-error", "status %d, no tree, %d allocation(s) still live", (int)res.status, live);
+        if (!is_success(res.status) && res.node == NULL && live != 0) {
+            const int again = live_on_second_presentation(via, buf, n);
+            if (again != 0)
+                mc_fail("C20/no-leak-on-error", "status %d, no tree, %d allocation(s) still live (%d on a second presentation)",
+                        (int)res.status, live, again);
+        }
         if (is_success(res.status) && res.node == NULL) {
             if (e->verdict == V_OK)
                 mc_fail("C20/complete-is-parsed", "success status without a tree");
             else
                 mc_fail("C20/success-without-tree", "status success (0) with a null tree: neither a tree nor an error status");
-            if (live != 0)
-                mc_fail("C20/no-leak-on-error", "no tree, %d allocation(s) still live", live);
+            if (live != 0) {
+                const int again = live_on_second_presentation(via, buf, n);
+                if (again != 0)
+                    mc_fail("C20/no-leak-on-error", "no tree, %d allocation(s) still live (%d on a second presentation)", live, again);
+            }
         }
 
         switch (e->verdict) {
@@ -589,9 +635,14 @@ present(const char *what, const char *in, size_t n, const struct expect *e)
             ledger.on = true;
             sx_destroy(&res.node);
             ledger.on = false;
-            mc_log("after sx_destroy: live=%d", ledger.live);
-            if (ledger.live != 0)
-                mc_fail("C20/destroy-frees-all", "%d allocation(s) of the parser still live after sx_destroy of the returned tree", ledger.live);
+            const int dlive = ledger.live;
+            mc_log("after sx_destroy: live=%d", dlive);
+            if (dlive != 0) {
+                const int again = live_on_second_presentation(via, buf, n);
+                if (again != 0)
+                    mc_fail("C20/destroy-frees-all", "%d allocation(s) of the parser still live after sx_destroy of the returned tree (%d on a second presentation)",
+                            dlive, again);
+            }
         }
         free(buf);
         mc_end(e->nontrivial, e->outcome);
